@@ -11,14 +11,15 @@ MS = "pysmt.substituter.MSSubstituter"
 FI = "pysmt.substituter.FunctionInterpretation"
 
 EXPLANATION = (
-    "Static analysis of pysmt/substituter.py: when entering a quantifier the map handed to the body "
-    "is obtained by a filter whose condition, in set-relational normal form, is "
-    "disjoint(free-variables(key), bound variables), and the unfiltered map does not reach the "
-    "recursive call (R1); bound variables are rebuilt, not looked up (R2); MGS looks the original "
-    "node up before rebuilding, MSS looks the rebuilt node up (R3, key provenance); exhaustive "
-    "dispatch (R4); function interpretations are applied by function name with rewritten arguments "
-    "and formals zipped in order with an arity check (R5); one-shot memo and fresh instance under a "
-    "reduced map (R6).")
+    "Abstract interpretation of pysmt/substituter.py (with the DagWalker machinery it inherits): both "
+    "substituters are interpreted from source on (formula skeleton, map) pairs and the result is compared "
+    "with the documented replacement computed by an independent reference - most-general: look the "
+    "original node up, else rebuild from the rewritten children; most-specific: rebuild, then look the "
+    "rebuilt node up; under a binder keys mentioning a bound variable are dropped and bound variables are "
+    "never replaced - and, for symbol maps, with the substitution lemma by exhaustive valuation; function "
+    "interpretations are compared with body[formals := rewritten actuals] (R7).  Exhaustive dispatch of "
+    "both substituters over the operator universe (R4).  One instance asked again under another map "
+    "answers like a fresh instance (R6).")
 NOT_DECIDED = ["the substitution lemma itself (values under updated interpretations)",
                "capture by replacement terms (excluded by the property's proviso)"]
 
@@ -80,276 +81,29 @@ def run(ctx):
     repo = get_repo()
     ctx.analysed["modules"] = ["pysmt/substituter.py", "pysmt/walkers/identitydag.py", "pysmt/walkers/dag.py"]
 
-    if ctx.want("R1"):
-        rs = ctx.rule("R1", "binder filter: disjoint(fv(key), bound vars); unfiltered map not forwarded")
-        cls, fn = repo.method(SUB, "_push_with_children_to_stack")
-        env = {}
-        for n in ast.walk(fn):
-            if isinstance(n, ast.Assign) and len(n.targets) == 1 and isinstance(n.targets[0], ast.Name):
-                env.setdefault(n.targets[0].id, n.value)
-        # find the loop / comprehension over <map>.items()
-        found = False
-        filt_var = None
-        for n in ast.walk(fn):
-            key = val = cond = src = None
-            if isinstance(n, ast.For) and isinstance(n.iter, ast.Call) and attr_tail(n.iter) == "items" \
-                    and isinstance(n.target, ast.Tuple) and len(n.target.elts) == 2:
-                key, val = n.target.elts[0].id, n.target.elts[1].id
-                src = norm(n.iter.func.value)
-                ifs = [s for s in n.body if isinstance(s, ast.If)]
-                if len(ifs) == 1 and len(n.body) == 1:
-                    cond = ifs[0].test
-                    st = [s for s in ifs[0].body if isinstance(s, ast.Assign) and isinstance(s.targets[0], ast.Subscript)]
-                    if st and isinstance(st[0].targets[0].value, ast.Name):
-                        filt_var = st[0].targets[0].value.id
-                        if not (norm(st[0].targets[0].slice) == key and norm(st[0].value) == val):
-                            ctx.finding(rs, "%s._push_with_children_to_stack|filter-copy" % SUB,
-                                        "filtered map entry is %s, not key->value of the original map"
-                                        % norm(st[0]), method_loc(repo, cls, st[0]))
-            elif isinstance(n, ast.DictComp) and len(n.generators) == 1 and \
-                    isinstance(n.generators[0].iter, ast.Call) and attr_tail(n.generators[0].iter) == "items" \
-                    and isinstance(n.generators[0].target, ast.Tuple):
-                g = n.generators[0]
-                key, val = g.target.elts[0].id, g.target.elts[1].id
-                src = norm(g.iter.func.value)
-                if len(g.ifs) == 1:
-                    cond = g.ifs[0]
-                for a, v in env.items():
-                    if v is n:
-                        filt_var = a
-            if key is None:
-                continue
-            if strip_set(src) not in ("substitutions", 'kwargs["substitutions"]', "kwargs['substitutions']") and \
-                    not (src in env and "substitutions" in norm(env[src])):
-                continue
-            found = True
-            if cond is None:
-                ctx.finding(rs, "%s._push_with_children_to_stack|no-filter" % SUB,
-                            "the substitution map is copied for the quantifier body without any "
-                            "filter on bound variables", method_loc(repo, cls, n))
-                continue
-            env2 = dict(env)
-            rel = setrel(cond, env2)
-            if rel is None:
-                rs.unrec("binder filter condition not in a recognised form: %s" % short(cond))
-                continue
-            kind, F, Q = rel
-            F, Q = strip_set(F), strip_set(Q)
-            fv_ok = F == "%s.get_free_variables()" % key
-            q_ok = Q == "formula.quantifier_vars()"
-            # symmetric relations may have operands swapped
-            if kind in ("disjoint", "not-disjoint") and not (fv_ok and q_ok):
-                if Q == "%s.get_free_variables()" % key and F == "formula.quantifier_vars()":
-                    fv_ok = q_ok = True
-            if kind == "disjoint" and fv_ok and q_ok:
-                rs.ok({"filter": norm(cond), "normal_form": "disjoint(fv(%s), qvars)" % key})
-            else:
-                ctx.finding(rs, "%s._push_with_children_to_stack|filter-relation" % SUB,
-                            "binder filter is %s(%s, %s); only disjoint(fv(key), formula.quantifier_vars()) "
-                            "keeps bound occurrences from being replaced" % (kind, F, Q),
-                            method_loc(repo, cls, cond))
-        if not found:
-            rs.unrec("no loop over the substitution map found in _push_with_children_to_stack")
-        # the recursive call receives the filtered map
-        for c in calls_in(fn):
-            if attr_tail(c) == "substitute":
-                a = kwarg(c, "subs", 1)
-                if a is None:
-                    rs.unrec("recursive substitute call without subs argument")
-                elif isinstance(a, ast.Name) and filt_var and a.id == filt_var:
-                    rs.ok({"recursive_call_map": a.id})
-                else:
-                    ctx.finding(rs, "%s._push_with_children_to_stack|unfiltered-forwarded" % SUB,
-                                "the quantifier body is substituted with %s, not the filtered map %s"
-                                % (norm(a), filt_var), method_loc(repo, cls, c))
-                b = c.args[0] if c.args else kwarg(c, "formula")
-                if b is not None and norm(b) != "formula.arg(0)":
-                    ctx.finding(rs, "%s._push_with_children_to_stack|body" % SUB,
-                                "recursive substitution applied to %s instead of the quantifier body" % norm(b),
-                                method_loc(repo, cls, c))
-        # quantifier test guards the special path
-        ifs = [s for s in fn.body if isinstance(s, ast.If)]
-        if ifs and norm(ifs[0].test) == "formula.is_quantifier()":
-            rs.ok({"guard": "formula.is_quantifier()"})
-        else:
-            rs.unrec("top-level quantifier guard not recognised")
-        ctx.floor(rs, 3)
-
-    if ctx.want("R2"):
-        rs = ctx.rule("R2", "bound variables are rebuilt, never looked up in the map")
-        for q in (MG, MS):
-            for w in ("walk_forall", "walk_exists"):
-                cls, f = repo.find_method(q, w)
-                if f is None:
-                    ctx.error("R2", "%s.%s vanished" % (q, w))
-                    continue
-                ctor_calls = [c for c in calls_in(f) if attr_tail(c) in ("ForAll", "Exists")]
-                if len(ctor_calls) != 1:
-                    rs.unrec("%s.%s: quantifier constructor call not unique" % (q, w))
-                    continue
-                c = ctor_calls[0]
-                exp = "ForAll" if w == "walk_forall" else "Exists"
-                if attr_tail(c) != exp:
-                    ctx.finding(rs, "%s.%s|wrong-quantifier" % (q, w),
-                                "%s rebuilds with %s" % (w, attr_tail(c)), method_loc(repo, cls, c))
-                    continue
-                vexpr = c.args[0]
-                src = vexpr
-                if isinstance(vexpr, ast.Name):
-                    for n in ast.walk(f):
-                        if isinstance(n, ast.Assign) and isinstance(n.targets[0], ast.Name) and n.targets[0].id == vexpr.id:
-                            src = n.value
-                txt = norm(src)
-                if "substitutions" in names_in(src) or "_substitute" in txt:
-                    ctx.finding(rs, "%s.%s|qvars-looked-up" % (q, w),
-                                "bound variables of %s depend on the substitution map: %s" % (w, short(src)),
-                                method_loc(repo, cls, src))
-                elif "formula.quantifier_vars()" in txt:
-                    rs.ok({"class": q.split(".")[-1], "handler": w, "qvars": short(src)})
-                else:
-                    rs.unrec("%s.%s: variable list %s" % (q, w, short(src)))
-                if norm(c.args[1]) != "args[0]":
-                    ctx.finding(rs, "%s.%s|body" % (q, w), "quantifier body is %s, not the rewritten body args[0]"
-                                % norm(c.args[1]), method_loc(repo, cls, c))
-        ctx.floor(rs, 4)
-
-    if ctx.want("R3"):
-        rs = ctx.rule("R3", "lookup order: MGS original-before-rebuild, MSS rebuilt-then-lookup")
-        # MGS
-        for w in ("walk_identity_or_replace", "walk_forall", "walk_exists"):
-            cls, f = repo.find_method(MG, w)
-            if f is None:
-                rs.unrec("MGSubstituter.%s not found" % w)
-                continue
-            gets = [c for c in calls_in(f) if attr_tail(c) == "get" and "substitutions" in norm(c.func)]
-            if len(gets) != 1:
-                rs.unrec("MGSubstituter.%s: lookup not recognised" % w)
-                continue
-            g = gets[0]
-            if norm(g.args[0]) != "formula":
-                ctx.finding(rs, "%s.%s|lookup-key" % (MG, w),
-                            "most-general substitution looks up %s, not the original node" % norm(g.args[0]),
-                            method_loc(repo, cls, g))
-                continue
-            # rebuild only on miss
-            ifs = [n for n in ast.walk(f) if isinstance(n, ast.If)]
-            miss = [i for i in ifs if norm(i.test) in ("res is None", "res == None")]
-            rebuilds = [c for c in calls_in(f) if attr_tail(c) in ("super", "ForAll", "Exists")]
-            inside = miss and all(any(c is x for x in ast.walk(miss[0])) for c in rebuilds)
-            if miss and inside and rebuilds:
-                rs.ok({"class": "MGSubstituter", "handler": w, "lookup": "substitutions.get(formula)", "rebuild": "on miss"})
-            else:
-                ctx.finding(rs, "%s.%s|rebuild-unconditional" % (MG, w),
-                            "rebuild is not conditional on a lookup miss", method_loc(repo, cls, f))
-        # MSS
-        for w in ("walk_replace", "walk_forall", "walk_exists"):
-            cls, f = repo.find_method(MS, w)
-            if f is None:
-                rs.unrec("MSSubstituter.%s not found" % w)
-                continue
-            subs = [c for c in calls_in(f) if attr_tail(c) == "_substitute"]
-            if len(subs) != 1:
-                rs.unrec("MSSubstituter.%s: lookup not recognised" % w)
-                continue
-            a = subs[0].args[0]
-            src = None
-            if isinstance(a, ast.Name):
-                for n in ast.walk(f):
-                    if isinstance(n, ast.Assign) and isinstance(n.targets[0], ast.Name) and n.targets[0].id == a.id:
-                        src = n.value
-            if src is not None and isinstance(src, ast.Call) and attr_tail(src) in ("super", "ForAll", "Exists"):
-                rs.ok({"class": "MSSubstituter", "handler": w, "lookup_key": "rebuilt node (%s)" % short(src, 40)})
-            else:
-                ctx.finding(rs, "%s.%s|lookup-key" % (MS, w),
-                            "most-specific substitution looks up %s, not the rebuilt node" % norm(a),
-                            method_loc(repo, cls, subs[0]))
-        cls, f = repo.find_method(MS, "_substitute")
-        if f is not None:
-            rets = [n for n in ast.walk(f) if isinstance(n, ast.Return)]
-            if len(rets) == 1 and norm(rets[0].value) == "substitutions.get(formula, formula)":
-                rs.ok({"_substitute": norm(rets[0].value)})
-            else:
-                rs.unrec("_substitute body: %s" % [short(r) for r in rets])
-        ctx.floor(rs, 6)
-
     if ctx.want("R4"):
         rs = ctx.rule("R4", "exhaustive dispatch of both substituters")
         dispatch_rule(ctx, rs, MG)
         dispatch_rule(ctx, rs, MS)
         ctx.floor(rs, 120)
 
-    if ctx.want("R5"):
-        rs = ctx.rule("R5", "function interpretations: by name, rewritten args, formals zipped in order")
-        cls, f = repo.method(SUB, "walk_function")
-        txt = norm(f)
-        ok1 = "formula.function_name()" in txt
-        interp = [c for c in calls_in(f) if attr_tail(c) == "interpret"]
-        if ok1 and len(interp) == 1 and len(interp[0].args) == 2 and norm(interp[0].args[1]) == "args":
-            rs.ok({"walk_function": short(interp[0])})
-        elif len(interp) == 1 and len(interp[0].args) == 2:
-            ctx.finding(rs, "%s.walk_function|interpret-args" % SUB,
-                        "interpretation instantiated with %s instead of the rewritten arguments" % norm(interp[0].args[1]),
-                        method_loc(repo, cls, interp[0]))
-        else:
-            rs.unrec("walk_function: interpret call not recognised")
-        cls, f = repo.method(FI, "interpret")
-        zips = [c for c in calls_in(f) if attr_tail(c) == "zip"]
-        if len(zips) == 1 and [norm(a) for a in zips[0].args] == ["self.formal_params", "actual_params"]:
-            rs.ok({"interpret": "dict(zip(formal_params, actual_params))"})
-        elif zips:
-            ctx.finding(rs, "%s.interpret|zip-order" % FI,
-                        "formals/actuals zipped as %s" % norm(zips[0]), method_loc(repo, cls, zips[0]))
-        else:
-            rs.unrec("interpret: zip not found")
-        lens = [n for n in ast.walk(f) if isinstance(n, ast.If) and "len(" in norm(n.test)]
-        if lens and any(isinstance(s, ast.Raise) for s in lens[0].body) and "!=" in norm(lens[0].test):
-            rs.ok({"arity_check": norm(lens[0].test)})
-        else:
-            ctx.finding(rs, "%s.interpret|arity" % FI, "no arity check raising on mismatch",
-                        method_loc(repo, cls, f))
-        sub = [c for c in calls_in(f) if attr_tail(c) == "substitute"]
-        if sub and norm(sub[0].args[0]) == "self.function_body":
-            rs.ok({"instantiates": "self.function_body"})
-        else:
-            rs.unrec("interpret: body substitution not recognised")
-        ctx.floor(rs, 4)
-
     if ctx.want("R6"):
-        rs = ctx.rule("R6", "one-shot memo for kwargs-insensitive keys; fresh instance under reduced map")
-        cls, init = repo.method(SUB, "__init__")
-        good = False
-        for c in calls_in(init):
-            if attr_tail(c) == "__init__":
-                v = kwarg(c, "invalidate_memoization")
-                if v is not None and isinstance(v, ast.Constant) and v.value is True:
-                    good = True
-        cls2, gk = repo.find_method(SUB, "_get_key")
-        drops = gk is not None and all(norm(r.value) == "formula" for r in ast.walk(gk) if isinstance(r, ast.Return))
-        if drops and good:
-            rs.ok({"_get_key": "formula only", "invalidate_memoization": True})
-        elif drops:
-            ctx.finding(rs, "%s.__init__|memo-not-one-shot" % SUB,
-                        "Substituter memoises by formula only but does not invalidate the memo after each walk: "
-                        "a second substitute() with another map returns stale results",
-                        method_loc(repo, cls, init))
-        else:
-            rs.ok({"_get_key": "includes kwargs"})
-        cls, fn = repo.method(SUB, "_push_with_children_to_stack")
-        fresh = [c for c in calls_in(fn) if norm(c.func) in ("self.__class__", "type(self)")]
-        rec = [c for c in calls_in(fn) if attr_tail(c) == "substitute"]
-        if rec:
-            recv = rec[0].func.value
-            if isinstance(recv, ast.Name) and fresh and any(
-                    isinstance(n, ast.Assign) and isinstance(n.targets[0], ast.Name) and n.targets[0].id == recv.id
-                    and n.value in fresh for n in ast.walk(fn)):
-                rs.ok({"quantifier_body": "substituted by a new %s instance" % norm(fresh[0].func)})
-            elif norm(recv) == "self":
-                ctx.finding(rs, "%s._push_with_children_to_stack|same-instance" % SUB,
-                            "the quantifier body is substituted with the same walker instance under a reduced "
-                            "map: memoised results for the outer map are reused", method_loc(repo, cls, rec[0]))
+        rs = ctx.rule("R6", "one walker instance asked again under another map answers like a fresh one (no stale memo)")
+        from . import walk_deep as wd
+        res, _others, _t = wd.results(repo, ctx.tier, classes=(MG, MS), towers=False)
+        for r in res:
+            if r["cls"] not in (MG, MS):
+                continue
+            if r["kind"] != "ok":
+                rs.unrec("%s on %s: %s" % (r["cls"], r["shape"], "; ".join(r["notes"])[:160]))
+            elif r.get("stale"):
+                ctx.finding(rs, "%s|stale-across-maps" % r["cls"],
+                            "%s: after substitute(%s, {a: c}) the same instance answers substitute(.., {a: b}) with %s, "
+                            "a fresh instance with %s: results memoised under the first map are reused"
+                            % (r["cls"].split(".")[-1], r["shape"], r["stale"][0], r["stale"][1]), "pysmt/substituter.py")
             else:
-                rs.unrec("receiver of recursive substitute: %s" % norm(recv))
-        ctx.floor(rs, 2)
+                rs.ok({"class": r["cls"].split(".")[-1], "shape": r["shape"], "second_map": "same result as a fresh instance"})
+        ctx.floor(rs, 4)
 
     from . import c05_deep
     c05_deep.run(ctx)
